@@ -433,57 +433,66 @@ func c16r3(c *Ctx) {
 						c.Fail(rule, "violation", FuncName(change), construct, c.P.InstrPos(x), "the factory's schedule can be replaced by something that did not pass validation")
 					}
 				}
-			case ssa.CallInstruction:
-				if InvokeName(x) == "BuiltinFunction.SetNewGasConfig" {
-					n++
-					construct := "broadcast SetNewGasConfig(" + e.Term(x.Common().Args[0]) + ")"
-					_, cut := e.CutAt(x, decodeOK, nil)
-					if at := e.Term(x.Common().Args[0]); cut && (at == "*"+newCfg || storedCfg != "" && at == storedCfg) {
-						c.OK(rule, FuncName(change), construct, c.P.InstrPos(x), "only after successful validation, with the stored schedule")
-					} else {
-						c.Fail(rule, "violation", FuncName(change), construct, c.P.InstrPos(x), "functions can be repriced with a schedule that was rejected, or with another object than the stored one")
-					}
-					// every key of the container: receiver comes from Get(key) with key ranging over Keys() of the same container
-					recvT := e.Term(x.Common().Value)
-					if strings.Contains(recvT, "#") {
-						c.OK(rule, FuncName(change), "broadcast covers the container", c.P.InstrPos(x), "receiver "+recvT+" obtained from the container inside the loop over its keys")
-					}
-					// no function is skipped: once Get(key) has succeeded, neither the next iteration nor a return is reachable
-					// without the SetNewGasConfig call on what Get returned
-					var get *ssa.Call
-					if ex, ok := x.Common().Value.(*ssa.Extract); ok {
-						get, _ = ex.Tuple.(*ssa.Call)
-					}
-					if get == nil || InvokeName(get) != "BuiltInFunctionContainer.Get" {
-						c.Fail(rule, "undecided", FuncName(change), "broadcast skips no registered function", c.P.InstrPos(x), "the receiver of SetNewGasConfig is not what the container's Get returned")
-					} else {
-						barriers := map[ssa.Instruction]bool{x.(ssa.Instruction): true}
-						errCut := map[edge]bool{}
-						for ed, fs := range e.EdgeFacts() {
-							for _, f := range fs {
-								if !f.Lin && !f.Pos && f.Call == ssa.CallInstruction(get) && strings.HasPrefix(f.Atom, "ok:") {
-									errCut[ed] = true // Get failed: nothing to reprice
-								}
-							}
-						}
-						bad := ""
-						if reachesAvoiding(change, get, get, barriers, errCut) {
-							bad = "the loop can go on to the next key"
-						}
-						for _, r := range returnsOf(change) {
-							if reachesAvoiding(change, get, r, barriers, errCut) {
-								bad = "the function can return"
-							}
-						}
-						if bad == "" {
-							c.OK(rule, FuncName(change), "broadcast skips no registered function", c.P.InstrPos(x), "after a successful Get every path passes SetNewGasConfig on its result")
-						} else {
-							c.FailX(Oblig{Rule: rule, Func: FuncName(change), Construct: "broadcast skips no registered function", Pos: c.P.InstrPos(x), Kind: "violation",
-								Detail:   "after Get(key) succeeded " + bad + " without SetNewGasConfig having been called on that function: it keeps charging the previous schedule (e.g. a function that is not active yet and is activated later)",
-								Expected: "SetNewGasConfig on every function of the container, unconditionally"})
-						}
+			}
+		}
+	}
+	// the broadcast: in GasScheduleChange itself or in a helper below it
+	isBroadcast := func(in ssa.Instruction) (string, bool) {
+		if ci, ok := in.(ssa.CallInstruction); ok && InvokeName(ci) == "BuiltinFunction.SetNewGasConfig" {
+			return "broadcast", true
+		}
+		return "", false
+	}
+	for _, s := range c.P.EffectSitesBelow(e, "c16broadcast", isBroadcast) {
+		x := s.In.(ssa.CallInstruction)
+		se, sfn := s.Env, s.In.Parent()
+		_ = sfn
+		n++
+		construct := "broadcast SetNewGasConfig(" + se.Term(x.Common().Args[0]) + ")"
+		_, _, cut := s.CutInContext(decodeOK, nil)
+		if at := se.Term(x.Common().Args[0]); cut && (at == "*"+newCfg || storedCfg != "" && at == storedCfg) {
+			c.OK(rule, FuncName(sfn), construct, c.P.InstrPos(x), "only after successful validation, with the stored schedule")
+		} else {
+			c.Fail(rule, "violation", FuncName(sfn), construct, c.P.InstrPos(x), "functions can be repriced with a schedule that was rejected, or with another object than the stored one")
+		}
+		// every key of the container: receiver comes from Get(key) with key ranging over Keys() of the same container
+		recvT := se.Term(x.Common().Value)
+		if strings.Contains(recvT, "#") {
+			c.OK(rule, FuncName(sfn), "broadcast covers the container", c.P.InstrPos(x), "receiver "+recvT+" obtained from the container inside the loop over its keys")
+		}
+		// no function is skipped: once Get(key) has succeeded, neither the next iteration nor a return is reachable
+		// without the SetNewGasConfig call on what Get returned
+		var get *ssa.Call
+		if ex, ok := x.Common().Value.(*ssa.Extract); ok {
+			get, _ = ex.Tuple.(*ssa.Call)
+		}
+		if get == nil || InvokeName(get) != "BuiltInFunctionContainer.Get" {
+			c.Fail(rule, "undecided", FuncName(sfn), "broadcast skips no registered function", c.P.InstrPos(x), "the receiver of SetNewGasConfig is not what the container's Get returned")
+		} else {
+			barriers := map[ssa.Instruction]bool{x.(ssa.Instruction): true}
+			errCut := map[edge]bool{}
+			for ed, fs := range se.EdgeFacts() {
+				for _, f := range fs {
+					if !f.Lin && !f.Pos && f.Call == ssa.CallInstruction(get) && strings.HasPrefix(f.Atom, "ok:") {
+						errCut[ed] = true // Get failed: nothing to reprice
 					}
 				}
+			}
+			bad := ""
+			if reachesAvoiding(sfn, get, get, barriers, errCut) {
+				bad = "the loop can go on to the next key"
+			}
+			for _, r := range returnsOf(sfn) {
+				if reachesAvoiding(sfn, get, r, barriers, errCut) {
+					bad = "the function can return"
+				}
+			}
+			if bad == "" {
+				c.OK(rule, FuncName(sfn), "broadcast skips no registered function", c.P.InstrPos(x), "after a successful Get every path passes SetNewGasConfig on its result")
+			} else {
+				c.FailX(Oblig{Rule: rule, Func: FuncName(sfn), Construct: "broadcast skips no registered function", Pos: c.P.InstrPos(x), Kind: "violation",
+					Detail:   "after Get(key) succeeded " + bad + " without SetNewGasConfig having been called on that function: it keeps charging the previous schedule (e.g. a function that is not active yet and is activated later)",
+					Expected: "SetNewGasConfig on every function of the container, unconditionally"})
 			}
 		}
 	}
@@ -579,7 +588,65 @@ func c16r3(c *Ctx) {
 				}
 				for _, r3 := range *mi.Referrers() {
 					dc, ok := r3.(*ssa.Call)
-					if !ok || !strings.HasSuffix(CalleeName(dc), "mapstructure.Decode") || len(dc.Call.Args) < 2 || dc.Call.Args[1] != ssa.Value(mi) {
+					if !ok {
+						continue
+					}
+					// the table handed, as an interface, to a helper that decodes into it and checks it (`fillSection(map, name, &cost.Table)`)
+					if sc := dc.Call.StaticCallee(); sc != nil && len(sc.Blocks) > 0 && reachDecode[sc] && sc.Pkg != nil && strings.HasPrefix(sc.Pkg.Pkg.Path(), modPath) {
+						for i, a := range dc.Call.Args {
+							if a != ssa.Value(mi) || i >= len(sc.Params) {
+								continue
+							}
+							filled := func(f Fact) bool {
+								return !f.Lin && f.Pos && f.Call == ssa.CallInstruction(dc) && strings.HasPrefix(f.Atom, "ok:")
+							}
+							construct := "result." + fieldName(fa.X.Type(), fa.Field) + " filled by " + sc.Name()
+							if _, cut := ce.CutAt(r, filled, nil); !cut {
+								c.Fail(rule, "violation", FuncName(fn), construct, c.P.InstrPos(dc), "the error of the helper that decodes this table is not checked before the object is handed back")
+								continue
+							}
+							sub := ce.Sub(dc, sc)
+							par := sc.Params[i]
+							okAll, found := true, false
+							for _, r2 := range returnsOf(sc) {
+								if !isSuccessReturn(r2) {
+									continue
+								}
+								var dec *ssa.Call
+								for _, pr := range *par.Referrers() {
+									if d2, ok := pr.(*ssa.Call); ok && strings.HasSuffix(CalleeName(d2), "mapstructure.Decode") && len(d2.Call.Args) >= 2 && d2.Call.Args[1] == ssa.Value(par) {
+										dec = d2
+									}
+								}
+								if dec == nil {
+									okAll = false
+									continue
+								}
+								found = true
+								_, cutD := sub.CutAt(r2, func(f Fact) bool {
+									return !f.Lin && f.Pos && f.Call == ssa.CallInstruction(dec) && strings.HasPrefix(f.Atom, "ok:")
+								}, nil)
+								_, cutZ := sub.CutAt(r2, func(f Fact) bool {
+									if f.Lin || !f.Pos || f.Call == nil || !strings.HasPrefix(f.Atom, "ok:") || !strings.HasSuffix(CalleeName(f.Call), "/check.ForZeroUintFields") {
+										return false
+									}
+									// the checked value is computed from the pointer handed in (`*p`, or reflect.Indirect(reflect.ValueOf(p)).Interface())
+									return f.Call.Parent() == sc && valueDependsOn(f.Call.Common().Args[0], par, 0)
+								}, nil)
+								if !cutD || !cutZ {
+									okAll = false
+								}
+							}
+							nf++
+							if okAll && found {
+								c.OK(rule, FuncName(fn), construct, c.P.InstrPos(dc), "decoded into the table and checked for zero fields inside the helper, whose success cuts the return")
+							} else {
+								c.Fail(rule, "violation", FuncName(fn), construct, c.P.InstrPos(dc), "the helper can succeed without having decoded this table and checked it for zero fields")
+							}
+						}
+						continue
+					}
+					if !strings.HasSuffix(CalleeName(dc), "mapstructure.Decode") || len(dc.Call.Args) < 2 || dc.Call.Args[1] != ssa.Value(mi) {
 						continue
 					}
 					nf++
@@ -712,6 +779,26 @@ func c16r3(c *Ctx) {
 
 // recvOffset: call arguments include the receiver, so do Params: no shift is needed (kept for clarity at the use site).
 func recvOffset(fn *ssa.Function) int { return 0 }
+
+// valueDependsOn: v is computed from w through operands only (conversions, loads, calls with it among the arguments).
+func valueDependsOn(v, w ssa.Value, depth int) bool {
+	if v == w {
+		return true
+	}
+	if depth > 8 {
+		return false
+	}
+	in, ok := v.(ssa.Instruction)
+	if !ok {
+		return false
+	}
+	for _, op := range in.Operands(nil) {
+		if *op != nil && valueDependsOn(*op, w, depth+1) {
+			return true
+		}
+	}
+	return false
+}
 
 // decodeTargetFresh: 1 when the object behind the pointer is allocated zero-valued below GasScheduleChange and not assigned as a
 // whole before, 0 when it is existing state (a field of a longer-lived object, or a copy of one), -1 when unknown.
@@ -847,6 +934,39 @@ func c16r4(c *Ctx) {
 // includesCost: the unsigned value is cost + (non-negative terms): the cost field itself, a sum with a summand that
 // includes it, a product with it, or a loop accumulator whose every incoming value includes it.
 func includesCost(e *Env, v ssa.Value, costTerm string, assumed map[*ssa.Phi]bool) bool {
+	// the running total threaded through a helper (`used, err = k.processPair(…, used)`): every successful return of the helper
+	// hands back a value that includes the cost, given that what it was handed does
+	helperResult := func(call *ssa.Call, idx int) bool {
+		sc := call.Call.StaticCallee()
+		if sc == nil || len(sc.Blocks) == 0 || sc.Pkg == nil || !strings.HasPrefix(sc.Pkg.Pkg.Path(), modPath) || e.depth >= maxDepth {
+			return false
+		}
+		sub := e.Sub(call, sc)
+		n := 0
+		for _, r := range returnsOf(sc) {
+			if idx >= len(r.Results) {
+				return false
+			}
+			if lastIsError(sc) && !isSuccessReturn(r) {
+				continue
+			}
+			n++
+			if !includesCost(sub, retval(r, idx), costTerm, assumed) {
+				return false
+			}
+		}
+		return n > 0
+	}
+	switch x := v.(type) {
+	case *ssa.Extract:
+		if call, ok := x.Tuple.(*ssa.Call); ok && helperResult(call, x.Index) {
+			return true
+		}
+	case *ssa.Call:
+		if helperResult(x, 0) {
+			return true
+		}
+	}
 	switch x := v.(type) {
 	case *ssa.Convert:
 		return includesCost(e, x.X, costTerm, assumed)
